@@ -30,12 +30,15 @@ LEVEL = "exploration"
 COUNTS = {"quick": 4000, "thorough": 400000}
 RULE = ("seeded programs of 1-3 caller threads x up to 8 operations (construct any of 42 command classes, Class.unmarshall_cdb / "
         "marshall_cdb on own and foreign CDBs, unmarshall_datain / marshall round trips, repeated marshalling, facade calls on a "
-        "thread-private simulated device, failing constructions) executed under a seeded scheduler (random(p), pct(k<=3), "
+        "thread-private simulated device, cmd.unmarshall() of the own data-in buffer, failing constructions; 10% of the programs are "
+        "contention programs: 2-3 threads building only the parameter-list classes with differently shaped arguments) executed under a seeded scheduler (random(p), pct(k<=3), "
         "boundary, optional bytecode granularity) that pre-empts at source-line/call/return events inside pyscsi; enumerated: "
-        "ordered pairs of classes 'build A, build B, decode/encode with A' (all 1764 in thorough, 252 in quick). Non-trivial = "
+        "ordered pairs of classes 'build A, build B, decode/encode with A' (all 1764 in thorough, 252 in quick); every single "
+        "pre-emption point of a shared-facade call; every (thorough) / every third (quick) pre-emption point of every class's "
+        "constructor with a second thread building the same class in the window. Non-trivial = "
         "multi-threaded run with at least one pre-emption inside library code, or a sequential run with two different classes; "
         "distinct = event digest (includes the switch sequence at file:line)")
-ENUMERATED_NOTE = "(1) ordered pairs (A, B) of the 42 command classes, sequential: build A, build B, decode own CDB with A, re-encode, recheck A; (2) two threads on one shared facade+device, one call each: every single pre-emption point of the first call (700 step positions) x 3 (quick) / 8 (thorough) call pairs x 2 transports, the second thread running its whole call inside the window"
+ENUMERATED_NOTE = "(1) ordered pairs (A, B) of the 42 command classes, sequential: build A, build B, decode own CDB with A, re-encode, recheck A; (2) two threads on one shared facade+device, one call each: every single pre-emption point of the first call (700 step positions) x 3 (quick) / 8 (thorough) call pairs x 2 transports, the second thread running its whole call inside the window; (3) for each of the 42 classes: two threads construct the same class with differently shaped arguments, the first pre-empted at every (thorough) / every third (quick) step of its constructor (17.9k / 6k windows), the second building, encoding and decoding inside the window"
 COMPONENTS = {"real": ["all command classes", "SCSICommand", "converter", "SCSI facade + SCSIDevice for facade ops"],
               "stubs": ["sgio module", "virtual /dev", "threading.Lock/RLock replaced by cooperative locks (library uses none today)"],
               "simulated_peers": ["t10.targets.BlockLU per thread", "baton thread scheduler deciding every interleaving"]}
@@ -193,6 +196,9 @@ def gen_thread_ops(rng, n, classes, allow_facade):
             ops.append({"op": "rebuild", "slot": rng.randrange(len(slots))})
         elif r < 0.6:
             ops.append({"op": "decode_own", "slot": rng.randrange(len(slots))})
+        elif r < 0.64:
+            # the owner lets the device fill its command's data-in buffer and decodes it through the instance (cmd.unmarshall())
+            ops.append({"op": "unmarshall_own", "slot": rng.randrange(len(slots)), "seed": rng.randrange(1 << 20)})
         elif r < 0.72:
             ops.append({"op": "encode_own", "slot": rng.randrange(len(slots))})
         elif r < 0.8:
@@ -252,9 +258,32 @@ def gen_shared(rng, idx):
                                        "shared": {"transport": rng.choice(["sgio", "iscsi"])}}, "ops": ops}
 
 
+PLIST_CLASSES = ["ExtendedCopy4", "ExtendedCopy5", "PersistentReserveOut", "ModeSelect6", "ModeSelect10", "ReadCd", "ExtendedCopy4", "ExtendedCopy5"]
+
+
+def gen_contention(rng, idx):
+    """2-3 threads that all build commands of the few classes whose constructors marshal a parameter list in several steps
+    (descriptor lists, TransportIDs, mode pages), with differently shaped arguments: the longest windows for cross-talk"""
+    nt = rng.choice([2, 2, 3])
+    pool = rng.sample(PLIST_CLASSES, rng.choice([1, 2, 2]))
+    ops = []
+    for t in range(nt):
+        n = rng.choice([1, 2, 3])
+        for j in range(n):
+            ops.append(dict(op="construct", thread=t, **gen_ctor(rng, rng.choice(pool))))
+            if rng.random() < 0.3:
+                ops.append(dict(op="construct_twice", thread=t, **gen_ctor(rng, rng.choice(pool))))     # the same argument objects used for two commands
+            if rng.random() < 0.4:
+                ops.append({"op": rng.choice(["recheck", "decode_own", "unmarshall_own"]), "thread": t, "slot": j, "seed": rng.randrange(1 << 20)})
+    return {"property": ID, "config": {"strategy": gen_strategy(rng), "sched_seed": rng.randrange(1 << 62)}, "ops": ops}
+
+
 def generate(rng, idx, tier):
-    if rng.random() < 0.18:
+    r0 = rng.random()
+    if r0 < 0.18:
         return gen_shared(rng, idx)
+    if r0 < 0.28:
+        return gen_contention(rng, idx)
     nt = rng.choice([1, 2, 2, 2, 3, 3])
     pool = rng.sample(NAMES, rng.choice([2, 3, 5, 42]))
     threads = [gen_thread_ops(rng, rng.choice([2, 3, 4, 6, 8]), pool, True) for _ in range(nt)]
@@ -272,8 +301,66 @@ def n_pairs(tier):
     return 8 if tier == "thorough" else 3
 
 
+# scheduler steps (line/call/return events inside pyscsi) one construction takes at most, measured over generated arguments, plus margin
+CTOR_STEPS = {"ATAPassThrough12": 620, "ATAPassThrough16": 700, "ExchangeMedium": 330, "ExtendedCopy4": 2900, "ExtendedCopy5": 3050,
+              "GetLBAStatus": 790, "InitializeElementStatus": 110, "InitializeElementStatusWithRange": 250, "Inquiry": 200,
+              "ModeSelect10": 720, "ModeSelect6": 710, "ModeSense10": 340, "ModeSense6": 290, "MoveMedium": 260,
+              "OpenCloseImportExportElement": 175, "PersistentReserveIn": 175, "PersistentReserveInReadFullStatus": 185,
+              "PersistentReserveInReadKeys": 185, "PersistentReserveInReadReservation": 185, "PersistentReserveInReportCapabilities": 185,
+              "PersistentReserveOut": 680, "PositionToElement": 215, "PreventAllowMediumRemoval": 130, "Read10": 400, "Read12": 425,
+              "Read16": 460, "ReadCapacity10": 105, "ReadCapacity16": 695, "ReadCd": 390, "ReadDiscInformation": 175,
+              "ReadElementStatus": 375, "ReportLuns": 200, "ReportPriority": 455, "ReportTargetPortGroups": 450,
+              "SynchronizeCache10": 270, "SynchronizeCache16": 325, "TestUnitReady": 100, "Write10": 370, "Write12": 395,
+              "Write16": 430, "WriteSame10": 370, "WriteSame16": 460}
+assert sorted(CTOR_STEPS) == NAMES
+_CTOR_TABLE = {}
+
+
+def ctor_windows(tier):
+    """[(class, step)]: every (thorough) / every third (quick) pre-emption point of constructing each class"""
+    if tier not in _CTOR_TABLE:
+        stride = 1 if tier == "thorough" else 3
+        _CTOR_TABLE[tier] = [(n, st) for n in NAMES for st in range(0, CTOR_STEPS[n], stride)]
+    return _CTOR_TABLE[tier]
+
+
 def enumerated_count(tier):
-    return (42 * 42 if tier == "thorough" else 42 * 6) + n_pairs(tier) * S_MAX * 2
+    return (42 * 42 if tier == "thorough" else 42 * 6) + n_pairs(tier) * S_MAX * 2 + len(ctor_windows(tier))
+
+
+def _shaped(name, rng, big):
+    """constructor arguments of one class in a large and in a small shape (differently long lists)"""
+    spec = gen_ctor(rng, name)
+    if name in ("ExtendedCopy4", "ExtendedCopy5"):
+        five = name.endswith("5")
+        mk = F._spc5 if five else F._copy
+        nt = 3 if big else 1
+        seg = mk(F.SEG_B2B)
+        seg["source_cscd_descriptor_id" if five else "source_target_descriptor_id"] = nt - 1
+        seg["destination_cscd_descriptor_id" if five else "destination_target_descriptor_id"] = 0
+        spec["kw"] = {("cscd_descriptor_list" if five else "target_descriptor_list"): [mk(F.TGT_DESC) for _ in range(nt)],
+                      "segment_descriptor_list": [seg] * 1 + ([mk(F.SEG_B2B)] if big else []),
+                      "inline_data": {"$b": [7 if big else 8, 6 if big else 1]}}
+        if big:
+            spec["kw"]["segment_descriptor_list"][1]["destination_cscd_descriptor_id" if five else "destination_target_descriptor_id"] = 1
+    elif name == "PersistentReserveOut":
+        tid = {"protocol_id": 5, "iscsi_name": "iqn.2026-10.verif:%s" % ("b" * (9 if big else 1))}
+        spec["args"] = [0]
+        spec["kw"] = {"service_action_reservation_key": 5 if big else 6, "spec_i_pt": 1, "transport_ids": [tid] * (3 if big else 1)}
+    return spec
+
+
+def enumerated_ctor_window(k, tier):
+    """two threads build a command of the SAME class with differently shaped arguments; thread 0 is pre-empted at step s of its
+    constructor, thread 1 builds and uses its command inside that window, thread 0 resumes.  All windows of every constructor."""
+    name, st = ctor_windows(tier)[k]
+    rng = random.Random(NAMES.index(name) * 7919 + 11)
+    ops = [dict(op="construct", thread=0, **_shaped(name, rng, True)), {"op": "decode_own", "thread": 0, "slot": 0},
+           {"op": "unmarshall_own", "thread": 0, "slot": 0, "seed": 5},
+           dict(op="construct", thread=1, **_shaped(name, rng, False)), {"op": "encode_own", "thread": 1, "slot": 0},
+           {"op": "unmarshall_own", "thread": 1, "slot": 0, "seed": 6}]
+    return {"property": ID, "config": {"strategy": {"kind": "replay", "p_op": 0.0}, "sched_seed": 0},
+            "schedule": [[0, 0], [st + 2, 1]], "ops": ops}
 
 
 def enumerated_atomicity(k, tier):
@@ -296,6 +383,8 @@ def enumerated_atomicity(k, tier):
 
 def enumerated(k, tier):
     base = 42 * 42 if tier == "thorough" else 42 * 6
+    if k >= base + n_pairs(tier) * S_MAX * 2:
+        return enumerated_ctor_window(k - base - n_pairs(tier) * S_MAX * 2, tier)
     if k >= base:
         return enumerated_atomicity(k - base, tier)
     if tier == "thorough":
@@ -448,6 +537,15 @@ def do_op(ctx, op, reference):
             b1 = bytes(cmd.build_cdb(**d))
             b2 = bytes(cmd.build_cdb(**dict(d)))
             return [canon(b1), canon(b2), snap(cmd)]
+        if kind == "unmarshall_own":
+            if op["slot"] >= len(ctx.slots) or ctx.slots[op["slot"]] is None:
+                return "no-object"
+            cmd = ctx.slots[op["slot"]]
+            if isinstance(cmd.datain, bytearray) and len(cmd.datain):
+                cmd.datain[:] = F.pattern(op.get("seed", 0), len(cmd.datain))       # what "the device" left in the buffer
+            ctx.snaps[op["slot"]] = snap(cmd)
+            cmd.unmarshall()
+            return canon(cmd.result)
         if kind in ("decode_own", "encode_own", "recheck", "repeat_encode"):
             if op["slot"] >= len(ctx.slots) or ctx.slots[op["slot"]] is None:
                 return "no-object"
@@ -513,7 +611,10 @@ def _alone(arg):
         ctx.snaps.append(snap(ctx.slots[0]) if ctx.slots[0] is not None else None)
         op = dict(op, slot=0)
         for n_ in scribbles:         # what the owner itself did to this object earlier
-            do_op(ctx, {"op": "scribble", "slot": 0, "n": n_}, True)
+            if isinstance(n_, dict):
+                do_op(ctx, dict(n_, slot=0), True)
+            else:
+                do_op(ctx, {"op": "scribble", "slot": 0, "n": n_}, True)
     out = do_op(ctx, op, True)
     fin = snap(ctx.slots[-1]) if op["op"] == "construct" and ctx.slots and ctx.slots[-1] is not None else None
     return {"out": out, "final": fin}
@@ -549,6 +650,8 @@ def compute_reference(prog):
             r = core.fork_run(_alone, (t, op, slot_spec, scr.get(op.get("slot"), []) if "slot" in op else []))
             if op["op"] == "scribble":
                 scr.setdefault(op["slot"], []).append(op["n"])
+            if op["op"] == "unmarshall_own":
+                scr.setdefault(op["slot"], []).append({"op": "unmarshall_own", "seed": op.get("seed", 0)})
             if "harness_error" in r:
                 raise RuntimeError("alone-reference failed: " + r["harness_error"])
             out[str(i)] = r["out"]
@@ -621,7 +724,7 @@ def execute(prog):
         if final != ctxs[t].snaps:
             V.append(dict(oracle="C09.object-changed", where="threads" if multi else "sequential", detail="held-object",
                           expected="objects held by thread %d unchanged since construction" % t, actual="cdb/buffers differ at the end"))
-        scribbled = set(op["slot"] for _, op in lst if op["op"] == "scribble")
+        scribbled = set(op["slot"] for _, op in lst if op["op"] in ("scribble", "unmarshall_own"))
         ref_final = ref.get("final%d" % t) or []
         same = len(final) == len(ref_final) and all(a == b for k_, (a, b) in enumerate(zip(final, ref_final)) if k_ not in scribbled)
         if not same:
